@@ -175,11 +175,14 @@ func init() {
 		Rule:   "batch services: real frps (dashboard API) + real frpc (admin API; static_file, http_proxy and socks5 plugins behind tcp proxies), every service with its own drawn user name and password (colons and spaces allowed in passwords); 4-20 credential variants per service (none, exact, extended/prefix/empty/swapped user or password, malformed base64, another service's credentials) on GET/PUT/POST/DELETE, CONNECT, absolute-form and SOCKS5 sub-negotiation; oracle: served / tunnelled / authenticated implies exact credentials, refusals are challenges (401/407) or closes and reach neither the target nor a state-changing handler. Batches routes: same world as C06 with password-protected http and tcpmux routes mixed with unprotected and user-routed ones on the same hosts; request shapes: origin-form and absolute-form targets, HTTP/1.1 keep-alive, HTTP/1.0, HTTP/2 over clear text with prior knowledge and via the HTTP/1.1 upgrade (several requests per h2c connection), Authorization / Proxy-Authorization in any casing, right, wrong, missing and foreign credentials; oracle: a protected route's backend saw a request only if the request carried exactly its credentials. Batch groups: the load-balancing world of C13 with http / tcpmux members that carry their own credentials (same as, or different from, those of the member that created the group): whoever serves a request must be configured with exactly the credentials the request carried; distinct = distinct event-log hash",
 		Assume: []string{"an authorised plain (non-CONNECT) request through the http_proxy plugin and an authorised SOCKS5 CONNECT would dial through net/http's DefaultTransport / go-socks5's dialer, which are outside the network seam: authorised traffic is checked through CONNECT (http_proxy) and through the authentication status (socks5) only", "dashboard and admin static assets (/static/) are not requested: the asset file system is only loaded by the frps/frpc main programs"},
 	})
-	reg(&propSpec{ID: "C03", Level: "exploration",
+	reg(&propSpec{ID: "C03", Level: "exploration", CrashCounts: true,
 		Batches: []batchSpec{
 			{Name: "fault-free", World: "udp", Weight: 5},
 			{Name: "fault-free-l2", World: "udp", Weight: 1, Park: 0.002, Gos: 0.01},
 			{Name: "faults", World: "udp", Faults: true, Weight: 3},
+			// datagrams of several users in flight at once under the happens-before race detector: buffers shared
+			// between the per-user paths corrupt payloads only under true parallelism, which the simulation does not have
+			{Name: "race", World: "udp", Weight: 1, Race: true, Park: 0.005, Gos: 0.02},
 		},
 		Stub: []string{"network (simnet UDP with per-leg loss/duplication/reordering)", "UDP users (several source addresses)", "UDP responder backend", "clock"},
 		Rule: "one run = real frps + real frpc with a udp proxy (or sudp proxy + visitor frpc), drawn packet size, encryption, compression, mux, TLS, 1-6 user sockets each sending 1-60 datagrams of 12..packet-size bytes to the public endpoint; the backend answers each with a function of the request; multiset inclusion is measured at the public socket and at the client's local sockets so that injected loss/duplication is not blamed on frp; faults batch adds per-leg loss/dup/reorder and a work-connection reset; distinct = distinct event-log hash",
